@@ -12,6 +12,7 @@ import Pastel.Model.Ansi
 import Pastel.Model.Format
 import Pastel.Model.Parser
 import Pastel.Model.Cli
+import Pastel.Model.CliRun
 
 namespace Pastel
 open Wire
@@ -438,8 +439,60 @@ def opRand (args : List String) : String :=
     | none => bad
   | _ => bad
 
+def parseStrs : Nat → List String → Option (List String × List String)
+  | 0, rest => some ([], rest)
+  | n + 1, t :: rest => do
+    let s ← parseStr t
+    let (ss, rest) ← parseStrs n rest
+    pure (s :: ss, rest)
+  | _, [] => none
+
+def parseStdin : Nat → List String → Option (List Cli.StdinLine × List String)
+  | 0, rest => some ([], rest)
+  | n + 1, t :: rest => do
+    let l ← if t = "!" then some Cli.StdinLine.invalidUtf8 else (parseStr t).map Cli.StdinLine.text
+    let (ls, rest) ← parseStdin n rest
+    pure (l :: ls, rest)
+  | _, [] => none
+
+def errClass : Cli.Err → String
+  | .colorParse _ => "color-parse" | .colorInvalidUtf8 => "invalid-utf8"
+  | .couldNotReadFromStdin => "no-stdin" | .colorArgRequired => "color-arg-required"
+  | .couldNotParseNumber _ => "number" | .noColorPickerFound => "no-picker" | .stdoutClosed => "stdout-closed"
+
+/-- `cli <sub> <nargs> args… <ncolors> colors… <nstdin> lines…` → `ok <exit> <stdout> <class> <message>` -/
+def opCli (args : List String) : String :=
+  match args with
+  | sub :: na :: rest =>
+    match na.toNat? with
+    | some na =>
+      match parseStrs na rest with
+      | some (cargs, nc :: rest2) =>
+        match nc.toNat? with
+        | some nc =>
+          match parseStrs nc rest2 with
+          | some (cols, ns :: rest3) =>
+            match ns.toNat? with
+            | some ns =>
+              match parseStdin ns rest3 with
+              | some (lines, []) =>
+                let o := Cli.run sub cargs cols lines
+                let stdout := String.ofList (o.lines.flatMap fun l => l.toList ++ ['\n'])
+                let (cls, msg) := match o.err with
+                  | none => ("-", "")
+                  | some e => (errClass e, e.message)
+                s!"ok {o.exitCode} {showStr stdout} {cls} {showStr msg}"
+              | _ => bad
+            | none => bad
+          | _ => bad
+        | none => bad
+      | _ => bad
+    | none => bad
+  | _ => bad
+
 def runOp (st : OpState) (toks : List String) : OpState × String :=
   match toks with
+  | "cli" :: args => (st, opCli args)
   | "sort" :: args => (st, opSort args)
   | "list" :: args => (st, opList args)
   | "name" :: args => (st, opName args)
